@@ -26,6 +26,9 @@ def bad : Verdict := { model := "BADREQ", specOk := false, spec := "BADREQ" }
 
 def nat! (s : String) : Nat := s.toNat?.getD 0
 
+def words (s : String) : List String :=
+  (s.splitOn " ").filter (· ≠ "")
+
 def fmt2 {w} (p : BitVec w × BitVec 16) : String := s!"{p.1.toNat} {p.2.toNat}"
 
 def b8 (name : String) : Option (BitVec 16 → BitVec 8 → BitVec 8 → BitVec 8 × BitVec 16) :=
